@@ -12,41 +12,42 @@ structure IntrospectReq where
 def matchScopes (cfg : Config) (granted scopes : List String) : Bool :=
   scopes.all (fun s => s == "" || cfg.scopeStrategy.run (granted.map String.toList) s.toList)
 
-def introspectAccess (cfg : Config) (now : Time) (q : IntrospectReq) : Prog (Except Err Req) := do
-  match ← call (.getAccess q.token.sig) with
-  | .req r =>
-    if expiredAt r.sess.expAccess r.requestedAt cfg.atLife now then return .error .token_expired
-    else if !q.token.exact then return .error .token_signature_mismatch
-    else if !matchScopes cfg r.grantedScopes q.scopes then return .error .invalid_scope
-    else return .ok r
-  | _ => return .error .request_unauthorized
+/-- `CoreValidator.introspectAccessToken` -/
+def introspectAccess (cfg : Config) (now : Time) (q : IntrospectReq) : HP Req := do
+  let r ← expectReq (.getAccess q.token.sig) (fun _ => retErr .request_unauthorized)
+  HP.guard (!expiredAt r.sess.expAccess r.requestedAt cfg.atLife now) .token_expired
+  HP.guard q.token.exact .token_signature_mismatch
+  HP.guard (matchScopes cfg r.grantedScopes q.scopes) .invalid_scope
+  return r
 
-def introspectRefresh (cfg : Config) (now : Time) (q : IntrospectReq) : Prog (Except Err Req) := do
-  match ← call (.getRefresh q.token.sig) with
-  | .req r =>
-    if (match r.sess.expRefresh with | some e => decide (e < now) | none => false) then return .error .token_expired
-    else if !q.token.exact then return .error .token_signature_mismatch
-    else if !matchScopes cfg r.grantedScopes q.scopes then return .error .invalid_scope
-    else return .ok r
-  | _ => return .error .request_unauthorized
+/-- `CoreValidator.introspectRefreshToken` -/
+def introspectRefresh (cfg : Config) (now : Time) (q : IntrospectReq) : HP Req := do
+  let r ← expectReq (.getRefresh q.token.sig) (fun _ => retErr .request_unauthorized)
+  HP.guard (!refreshExpired r now) .token_expired
+  HP.guard q.token.exact .token_signature_mismatch
+  HP.guard (matchScopes cfg r.grantedScopes q.scopes) .invalid_scope
+  return r
+
+/-- run a sub-validator and look at its verdict (`err == nil`?) -/
+def attempt {α} (x : HP α) : Prog (Except Err α) := x
 
 def introspectProg (cfg : Config) (now : Time) (q : IntrospectReq) : Prog Out := do
   if cfg.disableRefreshIntrospect then
-    match ← introspectAccess cfg now q with
+    match ← attempt (introspectAccess cfg now q) with
     | .ok r => return .active "access_token" r
     | .error e => return .inactive e
   else if q.hint == .refresh then
-    match ← introspectRefresh cfg now q with
+    match ← attempt (introspectRefresh cfg now q) with
     | .ok r => return .active "refresh_token" r
     | .error _ =>
-      match ← introspectAccess cfg now q with
+      match ← attempt (introspectAccess cfg now q) with
       | .ok r => return .active "access_token" r
       | .error e => return .inactive e
   else
-    match ← introspectAccess cfg now q with
+    match ← attempt (introspectAccess cfg now q) with
     | .ok r => return .active "access_token" r
     | .error e =>
-      match ← introspectRefresh cfg now q with
+      match ← attempt (introspectRefresh cfg now q) with
       | .ok r => return .active "refresh_token" r
       | .error _ => return .inactive e
 
